@@ -60,7 +60,10 @@ CLAIMED = {
              "blobs across batches and span blocks, half of them filled by the real Buffer::push and read back entry by "
              "entry; the extracted scanner is run over the index pages found on closed device images (reused blocks "
              "included) and must predict what the reopened store serves for every key; an independent scanner (Python) "
-             "re-reads the layout; end-to-end streams with a must-hit oracle.",
+             "re-reads the layout; end-to-end streams with a must-hit oracle. Index page byte by byte (Disk/BlobIndex.v): "
+             "c07_index_page_roundtrip - BlobIndexReader::read of what BlobIndex::write/seal produced returns exactly the "
+             "entries written, whatever the rest of the reused page buffer holds; the extracted page writer/reader are compared "
+             "byte for byte with the real ones, also on pages with one byte changed.",
         ref="4/C07", tech="Coq proof (splitter invariant, chain invariant, scan exactness) + extracted-model correspondence (splitter and scanner) + oracles",
         note="drives Splitter::split and Buffer::push directly (hook H1); entry data is not part of the scan model (a data "
              "page that parses as an index page is C03's subject)."),
@@ -175,12 +178,14 @@ CLAIMED.update({
              "key (XXH64 and the decompressors are parameters); damage that changes that checksum, or the header's magic/tag, "
              "yields a miss; (recovery) for every history and whatever part of the device survives and is reached by the scan, a "
              "recovered store answers a miss or a version really written for the key; an index entry whose bytes fail "
-             "verification is a miss. Fault-injection oracle: every single-page fault (zero, 0xff, bit flips, swaps within and "
+             "verification is a miss; (blob index page, arbitrary bytes) BlobIndexReader::read hands entries to recovery only "
+             "if the stored checksum equals the checksum of everything behind it - count included - and can panic only on a page "
+             "whose checksum verifies. Fault-injection oracle: every single-page fault (zero, 0xff, bit flips, swaps within and "
              "across blocks and with the tombstone log) on images of real workloads, reopen in quiet mode, read every key.",
         ref="4/C03", tech="Coq proof (acceptance lemma over arbitrary bytes; unconditional version invariant) + extracted-model "
                           "correspondence + fault-injection oracle",
-        note="PARTIAL: the blob index page and tombstone page parsers are exercised by the oracle only (no Coq model of their "
-             "byte format beyond C10's log); 'opening never panics' is an observation of the oracle runs; header fields other "
+        note="PARTIAL: the tombstone page parser is exercised by the oracle only (no Coq model of its "
+             "byte format beyond C10's log); the blob index page model is tied to the code by the fmt/bidx stream of the C07 check; 'opening never panics' is an observation of the oracle runs; header fields other "
              "than the lengths are not covered by the entry checksum (a flip of hash/sequence in the header is caught by the "
              "key comparison or not at all - noted in DESIGN.md)."),
     "C09": dict(
